@@ -67,6 +67,9 @@ pub struct SpecSpec {
     pub drain: bool,
     /// never polls or ticks (silent spectator)
     pub silent_from: Option<i32>,
+    /// during a pause the spectator still polls (receives and acknowledges) but does not advance
+    #[serde(default)]
+    pub pause_polls: bool,
 }
 
 impl SpecSpec {
@@ -83,6 +86,7 @@ impl SpecSpec {
             timeout_ms: 2000,
             drain: true,
             silent_from: None,
+            pause_polls: false,
         }
     }
 }
